@@ -4,15 +4,15 @@
 set -u
 V="$(cd "$(dirname "$0")/.." && pwd)"
 R="$1"; OUT="$2"; shift 2
-mkdir -p "$V/.build"; cd "$V"; export VERIF_REPO="$R" VERIF_EVIDENCE_DIR="$V/.work/evidence-scratch"; : > "$OUT"
+mkdir -p "$V/.build"; cd "$V"; export VERIF_REPO="$R" VERIF_EVIDENCE_DIR="$V/.work/evidence-scratch" VERIF_WORK_SUFFIX="-$(basename "$R")"; : > "$OUT"
 for pc in "$@"; do
   p="${pc%%:*}"; prop="${pc##*:}"
   if ! git -C "$R" apply --check "$p" 2>/dev/null; then echo -e "$p\t$prop\tdoes-not-apply" >> "$OUT"; continue; fi
   git -C "$R" apply "$p"; start=$(date +%s)
-  timeout 1500 bin/check $prop quick > "$V/.build/rm.log" 2>&1; rc=$?
+  timeout 1500 bin/check $prop quick > "$OUT.log" 2>&1; rc=$?
   git -C "$R" apply -R "$p"
-  sig=$(grep -m1 "signature=" "$V/.build/rm.log" | sed 's/.*signature=\([^ ]*\).*/\1/')
-  [ -z "$sig" ] && sig=$(grep -m1 -E "INCONCLUSIVE|BUILD" "$V/.build/rm.log" | cut -c1-100)
+  sig=$(grep -m1 "signature=" "$OUT.log" | sed 's/.*signature=\([^ ]*\).*/\1/')
+  [ -z "$sig" ] && sig=$(grep -m1 -E "INCONCLUSIVE|BUILD" "$OUT.log" | cut -c1-100)
   echo -e "$p\t$prop\texit=$rc\t$sig\t$(( $(date +%s) - start ))s" >> "$OUT"
 done
 cat "$OUT"
